@@ -142,13 +142,22 @@ pub enum LookupOut {
 // ------------------------------------------------------------------------------------------
 // expiry
 // ------------------------------------------------------------------------------------------
+/// `t` seconds in nanoseconds, saturating: a ttl too large for the clock never elapses.
+pub fn ttl_ns(t: u64) -> i64 {
+    i64::try_from(t).ok().and_then(|t| t.checked_mul(SEC)).unwrap_or(i64::MAX)
+}
+/// ttls the virtual clock can actually reach (histories aim their advances at these only)
+pub fn ttl_reachable(t: u64) -> bool {
+    t <= 100_000
+}
+
 /// (may_be_expired, may_be_live) for an entry of exact age `age_ns` (C06).
 /// sync: exact at the second boundary; async: whole-second band.
 pub fn expiry_band(cfg: &Cfg, age_ns: i64) -> (bool, bool) {
     match cfg.ttl {
         None => (false, true),
         Some(t) => {
-            let t_ns = t as i64 * SEC;
+            let t_ns = ttl_ns(t);
             match cfg.flavour {
                 Flavour::Async => {
                     let must_expire = age_ns >= t_ns;
